@@ -8,11 +8,12 @@ P=${1:-2}
 OUT=seeded/REGRESSION.txt
 TMP=$(mktemp -d /tmp/regress-XXXXXX)
 one() {
-  d="$1"; name=$(basename "$d"); prop=$(python3 -c "import json;print(json.load(open('$d/meta.json'))['breaks_property'])")
+  d="$1"; name=$(basename "$d"); prop=$(python3 -c "import json,re;print(re.split('[ ,]',json.load(open('$d/meta.json'))['breaks_property'])[0])")
+  note=$(python3 -c "import json;d=json.load(open('$d/meta.json'));print('(no longer breaks the property on HEAD, see meta.json)' if d.get('still_breaks_property_on_head') is False else '')")
   log="$TMP/$name.log"
   tools/mutant.sh "$d/patch.diff" "$prop" > "$log" 2>&1; rc=$?
   cls=$(grep "class=" "$log" | grep -v "^KNOWN" | sed 's/.*class=//; s/ run=.*//' | sort -u | head -4 | tr '\n' ' ')
-  echo "$name $prop exit=$rc $cls"
+  echo "$name $prop exit=$rc $cls$note"
 }
 export -f one; export TMP
 ls -d seeded/*/ | sed 's|/$||' | xargs -P "$P" -I{} bash -c 'one {}' | sort > "$OUT.new"
